@@ -10,7 +10,7 @@ untouched, every later entry is exact.  `Pre` = the documented preconditions (co
 length `depth`, NUL-free strings, LCP array as long as the string array).  Every theorem
 quantifies over all inputs, depths, memory limits and `sizeof` constants.
 -/
-import TlxVerif.Proofs.C03Mkqs
+import TlxVerif.Proofs.C03Adapters
 namespace TlxVerif.C03
 
 variable {α : Type} (str : α → Str)
@@ -127,11 +127,72 @@ theorem radixsort_CE0_correct_partial (hP : PartitionOk str) (c : Consts) (wl : 
     SortSpec str wl ss l (radixsortCE0 str c wl d ss l mem) :=
   radixsortCE0_spec str c wl (multikeyQuicksort_spec str hP c wl) d ss l mem h
 
-/-- the full statement for multikey quicksort -/
-def multikey_quicksort_correct_statement : Prop :=
-  ∀ (α : Type) (str : α → Str) (c : Consts) (wl : Bool) (d : Nat) (ss : List α) (l : List Nat) (mem : Nat),
-    Pre str wl d ss l → SortSpec str wl ss l (multikeyQuicksort str c wl d ss l mem)
--- OPEN: multikey_quicksort_correct_statement — missing: `PartitionOk` for the array transliteration of the pivot selection + four-cursor partition loop + vec_swap (partition str); everything above it (recursion, LCP stores, memory fall-back, termination) is proved
+/-- C03/16-bit step: count, prefix sum, stable distribution by two bytes, LCP stores `depth` /
+`depth + 1` at the bucket borders, finished buckets `(c,0)`, recursion two characters deeper -/
+theorem radix16_step (wl : Bool) (d : Nat) (ss : List α) (l : List Nat) (bsL : List (List α))
+    (f : Nat → List α → List Nat → List α × List Nat)
+    (hperm : bsL.flatten.Perm ss) (hne : bsL ≠ [])
+    (hkey : ∀ j b, bsL[j]? = some b → ∀ y ∈ b, key16 (str y) d = j)
+    (hpre : Pre str wl d ss l)
+    (hf0 : ∀ b v, f 0 b v = (b, v))
+    (hfz : ∀ j b v, 1 ≤ j → j % 256 = 0 → bsL[j]? = some b → (wl = true → v.length = b.length) →
+      (∀ x ∈ b, ∀ y ∈ b, str x = str y ∧ lcp (str x) (str y) = d + 1) → SortSpec str wl b v (f j b v))
+    (hf : ∀ j b v, 1 ≤ j → j % 256 ≠ 0 → bsL[j]? = some b → Pre str wl (d + 2) b v →
+      SortSpec str wl b v (f j b v)) :
+    SortSpec str wl ss l
+      (mapBuckets bsL (splitBy (bsL.map List.length)
+        (if wl then stepLcp16 (bsL.map List.length) d l else l)) f) :=
+  step16_spec str wl d ss l bsL f hperm hne hkey hpre hf0 hfz hf
+
+/-- C03/radixsort_CE2 incl. its memory-limit fall-back chain CE2 → CI3 → CI2 → multikey quicksort -/
+theorem radixsort_CE2_correct_partial (hP : PartitionOk str) (hPerm : PermuteAllOk α) (c : Consts) (wl : Bool)
+    (d : Nat) (ss : List α) (l : List Nat) (mem : Nat) (h : Pre str wl d ss l) :
+    SortSpec str wl ss l (radixsortCE2 str c wl d ss l mem) :=
+  radixsortCE2_spec str c wl (multikeyQuicksort_spec str hP c wl) hPerm d ss l mem h
+
+/-- C03/radixsort_CE3 (16-bit steps switching to 8-bit steps below 65536 strings) -/
+theorem radixsort_CE3_correct_partial (hP : PartitionOk str) (hPerm : PermuteAllOk α) (c : Consts) (wl : Bool)
+    (d : Nat) (ss : List α) (l : List Nat) (mem : Nat) (h : Pre str wl d ss l) :
+    SortSpec str wl ss l (radixsortCE3 str c wl d ss l mem) :=
+  radixsortCE3_spec str c wl (multikeyQuicksort_spec str hP c wl) hPerm d ss l mem h
+
+/-- C03/radixsort_CI2 -/
+theorem radixsort_CI2_correct_partial (hP : PartitionOk str) (hPerm : PermuteAllOk α) (c : Consts) (wl : Bool)
+    (d : Nat) (ss : List α) (l : List Nat) (mem : Nat) (h : Pre str wl d ss l) :
+    SortSpec str wl ss l (radixsortCI2 str c wl d ss l mem) :=
+  radixsortCI2_spec str c wl (multikeyQuicksort_spec str hP c wl) hPerm d ss l mem h
+
+/-- C03/radixsort_CI3 -/
+theorem radixsort_CI3_correct_partial (hP : PartitionOk str) (hPerm : PermuteAllOk α) (c : Consts) (wl : Bool)
+    (d : Nat) (ss : List α) (l : List Nat) (mem : Nat) (h : Pre str wl d ss l) :
+    SortSpec str wl ss l (radixsortCI3 str c wl d ss l mem) :=
+  radixsortCI3_spec str c wl (multikeyQuicksort_spec str hP c wl) hPerm d ss l mem h
+
+/-- C03/sort_strings, sort_strings_lcp (every overload is radixsort_CE3 at depth 0): for every
+collection of NUL-free strings and every memory limit the result is a permutation of the objects
+in non-decreasing unsigned-byte order, and the LCP variant stores the exact LCPs -/
+theorem sort_strings_correct_partial (hP : PartitionOk str) (hPerm : PermuteAllOk α) (c : Consts) (wl : Bool)
+    (ss : List α) (l : List Nat) (mem : Nat) (hn : NulFree str ss) (hl : wl = true → l.length = ss.length) :
+    SortSpec str wl ss l (sortStrings str c wl ss l mem) :=
+  radixsortCE3_spec str c wl (multikeyQuicksort_spec str hP c wl) hPerm 0 ss l mem
+    ⟨fun _ _ _ _ => Nat.zero_le _, hn, hl⟩
+
+/-- the two facts about array loops that the theorems above are relative to -/
+def partition_statement : Prop := ∀ (α : Type) (str : α → Str), PartitionOk str
+-- OPEN: partition_statement — the array transliteration of pivot selection + four-cursor Bentley–Sedgewick loop + two vec_swaps (`partition`) yields `<pivot | =pivot | >pivot` with the range sizes read off the cursors; not proved, validated only by the exact-order correspondence
+
+def permute_statement : Prop := ∀ (α : Type), PermuteAllOk α
+-- OPEN: permute_statement — the in-place cycle-leader permutation of RadixStep_CI2/CI3 (`permuteInPlace`) yields a permutation cut into buckets by key; not proved (DESIGN §6 C03 Gap), validated only by the exact-order correspondence
+
+/-- the property at full strength -/
+def sort_strings_correct_statement : Prop :=
+  ∀ (α : Type) (str : α → Str) (c : Consts) (wl : Bool) (ss : List α) (l : List Nat) (mem : Nat),
+    NulFree str ss → (wl = true → l.length = ss.length) → SortSpec str wl ss l (sortStrings str c wl ss l mem)
+-- OPEN: sort_strings_correct_statement — follows from sort_strings_correct_partial once partition_statement and permute_statement are proved (the same holds for every detail entry point: multikey_quicksort, radixsort_CE0/CE2/CE3/CI2/CI3)
+
+theorem sort_strings_correct_of (h1 : partition_statement) (h2 : permute_statement) :
+    sort_strings_correct_statement :=
+  fun α str c wl ss l mem hn hl => sort_strings_correct_partial str (h1 α str) (h2 α) c wl ss l mem hn hl
 
 /-! ## non-vacuity -/
 
